@@ -288,6 +288,16 @@ func judge(rc rcase, res result, k1open, f4open bool) (v verdict) {
 		if sel.SW != 0x9000 {
 			return fail("READ BINARY although SELECT was answered %04x", sel.SW)
 		}
+		if expected >= 65536 && !ev.SFIAddr {
+			// the next byte to read lies at an offset that does not fit P1-P2 at all: offset/256 wraps
+			v.f4Hit = true
+			if f4open {
+				v.outcome = "excluded-F4"
+				return v
+			}
+			return fail("READ BINARY for offset %d sent with P1-P2 = %02x%02x: the offset does not fit two octets and wrapped; the card read file %04x at offset %d (status %04x, %d bytes)",
+				expected, ev.Plain.P1, ev.Plain.P2, ev.FID, ev.Offset, ev.SW, ev.Returned)
+		}
 		if ev.SFIAddr {
 			v.f4Hit = true
 			if f4open {
@@ -739,6 +749,11 @@ func f4Cases() []rcase {
 		plainCase(fileSpec{FID: 0x0102, SFI: 2, Tag: "75", LenOctets: 3, ContentLen: 32768 + 100 - 4, Seed: 5}, chipSpec{MaxLe: 256}, other),
 		// up to 33280 bytes: offsets 33024.. are sent as P1=81 => short EF identifier 1 = another file (DG1)
 		plainCase(fileSpec{FID: 0x0102, SFI: 2, Tag: "75", LenOctets: 3, ContentLen: 33024 + 200 - 4, Seed: 6}, chipSpec{MaxLe: 256}, other),
+		// 65539 bytes under SM with one 65535-byte read that comes back one byte short: the last byte
+		// is asked for at offset 65538, which wraps to P1-P2 = 0002
+		{Target: fileSpec{FID: 0x011E, SFI: 0x1E, Tag: "60", LenOctets: 3, ContentLen: 65535, Seed: 7}, Others: []fileSpec{other},
+			Chip: chipSpec{Policy: int(ChunkOneShort), FullBelow: 8, MaxLe: 65536}, Alg: string(mac.AES128),
+			KEnc: "000102030405060708090a0b0c0d0e0f", KMac: "101112131415161718191a1b1c1d1e1f", SSC: "00000000000000000000000000000000"},
 	}
 }
 
